@@ -150,8 +150,9 @@ StepResult(e, m1, rg1) ==
              wfo == WF(o.t, mb, o.a)
          IN [cl |->
               IF e.exc # "" THEN <<"set:raised">>
-              ELSE IF ~(ch \subseteq (elext \cup Regions(e.alloc)))
-                   THEN (IF ch \subseteq (ExtentOf(mem, o) \cup Regions(e.alloc)) THEN <<"frame:set-wrote-outside-element">> ELSE <<"frame:set-wrote-outside-object">>)
+              ELSE IF ~(ch \subseteq (ExtentOf(mem, o) \cup Regions(e.alloc))) THEN <<"frame:set-wrote-outside-object">>
+                   \* bytes changed INSIDE the object but outside the element are judged by their effect (values, sizes, shapes and
+                   \* references of every other part, below): padding that belongs to no part may be rewritten
               ELSE IF wfo # "" THEN <<"set:" \o wfo>>
               ELSE LET nt == NewTargetClauses(e.b, news, m1, e)
                        deco == Decode(o.t, mb, o.a)
